@@ -35,7 +35,7 @@ def _gr_ensures(C, res):
     k, j = z3.Int('k'), z3.Int('j')
     e = C._e
     if C.has('F'):
-        o = e.last_dropwhile['c']
+        o = C.note('last_dropwhile')['c']
     else:
         o = z3.Int(fresh_name('window_offset'))
     return [('window_is_a_run_of_reference_labels', z3.And(0 <= o, o + res.len <= P.len)),
@@ -158,6 +158,7 @@ def _gap_ensures(C, res):
         fw = z3.Function(fresh_name('gap_where'), z3.IntSort(), z3.IntSort(), z3.IntSort())
         orow, ocol, where = (lambda k: fo(k)), (lambda k: fc(k)), (lambda a, j: fw(a, j))
         C._e.last_gap = dict(row=fo, col=fc, where=fw)
+        C._st.notes['last_gap'] = C._e.last_gap
     return [
         ('every_candidate_is_an_in_range_pair', forall(K, z3.Implies(rng(0, K, res.len), z3.And(
             0 <= orow(K), orow(K) < R.len, 0 <= ocol(K), ocol(K) < Q.len,
@@ -211,8 +212,9 @@ def _gna_ensures(C, res):
     e = C._e
     k, i, j = z3.Int('k'), z3.Int('i'), z3.Int('j')
     cl = []
-    if C.has('F') and len(e.filter_log) >= 2:
-        f1, f2 = e.filter_log[-2], e.filter_log[-1]
+    fl_ = C.note('filter_log', ())
+    if C.has('F') and len(fl_) >= 2:
+        f1, f2 = fl_[-2], fl_[-1]
     elif not C.has('F'):
         # at call sites: the same clauses over skolem functions
         mk = lambda nm: z3.Function(fresh_name(nm), z3.IntSort(), z3.IntSort())
@@ -220,6 +222,7 @@ def _gna_ensures(C, res):
         f2 = dict(idx=mk('un_qry_idx'), inv=mk('un_qry_inv'), m=z3.Int(fresh_name('un_qry_n')))
         cl.append(('counts_nonnegative', z3.And(f1['m'] >= 0, f2['m'] >= 0)))
         e.last_unpaired = (f1, f2)
+        C._st.notes['last_unpaired'] = (f1, f2)
     else:
         f1 = None
     if f1 is not None:
@@ -274,7 +277,7 @@ def _align_ensures(C, res):
         pairs, un = Fv.deduplicatedAlignedPairs, Fv.notAlignedPositions
         cl.append(('result_is_a_permutation_of_kept_pairs_and_unpaired_positions', res.len == pairs.len + un.len))
         R, Q = Fv.referencePositions, Fv.queryPositions
-        f1, f2 = C._e.last_unpaired
+        f1, f2 = C.note('last_unpaired')
         i, j = z3.Int('i'), z3.Int('j')
         cl.append(('every_window_reference_label_is_in_a_kept_pair_or_listed_unpaired_not_both', forall(i, z3.Implies(rng(0, i, R.len), z3.Or(
             _paired_ref(pairs, R[i].siteId),
